@@ -389,3 +389,81 @@ package db
 //@                        ((called(PutExistingCurrentVersion, 1) && isNilErr(callres(PutExistingCurrentVersion, 1, 3))) ||
 //@                         (called(PutExistingRevWithConflictResolution, 1) && isNilErr(callres(PutExistingRevWithConflictResolution, 1, 2))))
 //@   before[stored-sequence]         call dynamic#2 isNilErr(callres(ParseJSONSequenceID, 2, 1)) && *$0 == callres(ParseJSONSequenceID, 2, 0)
+
+// ---- other nodes drop a stale cached revision when a conflict was resolved "local wins" ----
+
+// DocChanged handles one mutation of the caching feed. Two kinds of mutation rewrite a revision that readers may
+// already hold in the revision cache without giving it a new identity, so the cached copy must be dropped before the
+// change is announced:
+//  - a user-xattr change: the entry is dropped under the document's revision-tree id ([user-xattr-*]);
+//  - a "local wins" conflict resolution (flag UnchangedCV): the document keeps its current version while its HLV history
+//    and revision tree are rewritten; the stale entry is filed UNDER THAT CURRENT VERSION, so it must be dropped under
+//    the key Version{CurrentSource, HexCasToUint64(CurrentVersion)}.String() of this document ([unchanged-cv-*]).
+//    Otherwise other nodes keep serving (and pushing) the pre-resolution revision and the peers never converge.
+// and the change is handed to the channel cache (the last processEntry call) only after the removals it needs
+// ([invalidated-before-announced]: an entry that carries the UnchangedCV flag was preceded by the CV-keyed removal, a
+// mutation with a user xattr by the rev-id-keyed one).
+// Path contract on a large function (`modifies *`; the only callee contract used is the extern of base.HexCasToUint64,
+// a pure decoder -- without it the call would count as an arbitrary heap change between the flag test and the removal):
+// the clauses order the calls and pin their arguments. Call ordinals follow block order: Remove#1 is the rev-id-keyed removal, Remove#2 the CV-keyed one,
+// HexCasToUint64#2 / String#1 build the CV key, processEntry#3 is the entry for the new revision (processEntry#1, #2
+// are the unused / deduplicated sequences); each is pinned by an argument test below.
+//@ func changeCache.DocChanged
+//@   modifies *
+//@   only-contracts HexCasToUint64
+// (C13) the removal looked up for a coalesced earlier sequence is the removal AT THAT sequence
+//@   also C13: removal-at-recent-seq
+//@   before[removal-at-recent-seq]    call ChannelsRemovedAtSequence#1 $1 == seq
+//@   before[user-xattr-by-revid]      call Remove#1 len(rawUserXattr) > 0 && $2 == docID && $3 == callres(GetRevTreeID, 3, 0)
+//@   before[unchanged-cv-flag]        call Remove#2 syncData.Flags & channels.UnchangedCV != 0 && $2 == docID
+//@   before[unchanged-cv-by-cv]       call Remove#2 $3 == callres(String, 1, 0)
+//@   before[cv-key-is-current-version] call String#1 $0.SourceID == syncData.RevAndVersion.CurrentSource && $0.Value == callres(HexCasToUint64, 2, 0)
+//@   before[cv-key-value]             call HexCasToUint64#2 $0 == syncData.RevAndVersion.CurrentVersion
+//@   before[invalidated-before-announced] call processEntry#3 $2.DocID == docID && ($2.Flags & channels.UnchangedCV != 0 ==> called(Remove, 2)) && (len(rawUserXattr) > 0 ==> called(Remove, 1))
+
+// ---- a peer's current version stays in the history of every descendant until it is older than the purge interval ----
+
+//@ props C06 C10
+
+// compactWithValue trims the previous versions (pv) of a vector: it removes nothing but pv entries, only entries whose
+// value is strictly below the threshold, never below minPVEntriesRetained entries, and not at all when the threshold
+// is 0 or there are fewer than minPVEntriesBeforeCompaction entries; cv and mv are untouched. So a version that is in
+// pv and not older than the threshold is still there afterwards: the peer that wrote it can still see that an incoming
+// revision descends from its own.
+// (Not stated: "the entries removed are the OLDEST candidates". The candidates are sorted by value before the removal
+// loop; saying which of them survive the `len <= minPVEntriesRetained` stop needs the number of candidates already
+// removed, i.e. the cardinality of a set of map keys, which the specification language does not have.)
+// (Frame: the body also writes the backing array of its local slice `candidates` (append, sort.Slice) -- an array
+// allocated inside the call, invisible to callers; a local cannot be named in `modifies`, so the evidence lists it as
+// FRAME-GAP "body may write A:db.Version".)
+//@ func HybridLogicalVector.compactWithValue
+//@   requires hlv != nil && (hlv.PreviousVersions == nil || hlv.PreviousVersions != hlv.MergeVersions)
+//@   modifies elems(hlv.PreviousVersions)
+//@   ensures[cv-mv-untouched] hlv.SourceID == old(hlv.SourceID) && hlv.Version == old(hlv.Version) && hlv.MergeVersions == old(hlv.MergeVersions) && hlv.PreviousVersions == old(hlv.PreviousVersions) && mvUnchanged(hlv)
+//@   ensures[only-removes]    forall k string :: {k in hlv.PreviousVersions} (k in hlv.PreviousVersions) ==> old(k in hlv.PreviousVersions) && hlv.PreviousVersions[k] == old(hlv.PreviousVersions[k])
+//@   ensures[recent-kept]     forall k string :: {k in hlv.PreviousVersions} old(k in hlv.PreviousVersions) && old(hlv.PreviousVersions[k]) >= compactToValue ==> (k in hlv.PreviousVersions)
+//@   ensures[disabled]        compactToValue == 0 || old(len(hlv.PreviousVersions)) < minPVEntriesBeforeCompaction ==> pvUnchanged(hlv)
+//@   ensures[minimum-kept]    old(len(hlv.PreviousVersions)) >= minPVEntriesRetained ==> len(hlv.PreviousVersions) >= minPVEntriesRetained
+//@   loop 1 invariant[unchanged]  pvUnchanged(hlv) && mvUnchanged(hlv) && len(hlv.PreviousVersions) == old(len(hlv.PreviousVersions))
+//@   loop 1 invariant[candidates] forall i int :: {candidates[i]} 0 <= i && i < len(candidates) ==> (candidates[i].SourceID in hlv.PreviousVersions) && hlv.PreviousVersions[candidates[i].SourceID] < compactToValue
+//@   loop 2 invariant[mv]           mvUnchanged(hlv)
+//@   loop 2 invariant[candidates]   forall i int :: {candidates[i]} 0 <= i && i < len(candidates) ==> old(now(candidates[i].SourceID) in hlv.PreviousVersions) && old(hlv.PreviousVersions[now(candidates[i].SourceID)]) < compactToValue
+//@   loop 2 invariant[only-removes] forall k string :: {k in hlv.PreviousVersions} (k in hlv.PreviousVersions) ==> old(k in hlv.PreviousVersions) && hlv.PreviousVersions[k] == old(hlv.PreviousVersions[k])
+//@   loop 2 invariant[recent-kept]  forall k string :: {k in hlv.PreviousVersions} old(k in hlv.PreviousVersions) && old(hlv.PreviousVersions[k]) >= compactToValue ==> (k in hlv.PreviousVersions)
+//@   loop 2 invariant[minimum-kept] len(hlv.PreviousVersions) >= minPVEntriesRetained
+
+// timeNs(t): the value t.UnixNano() returns; the trusted algebra of time.Time.Add / UnixNano over it is in
+// /verif/trusted/c06_negotiation.spec.
+//@ fn timeNs(t time.Time) int64
+
+// Compact: the threshold handed to compactWithValue is the current wall-clock time MINUS the purge interval (entries
+// older than the interval are the only candidates); purgeInterval == 0 disables compaction.
+//@ func HybridLogicalVector.Compact
+//@   requires hlv != nil && (hlv.PreviousVersions == nil || hlv.PreviousVersions != hlv.MergeVersions)
+//@   modifies elems(hlv.PreviousVersions)
+//@   before[threshold-is-now-minus-interval] call compactWithValue#1 $3 == uint64(timeNs(callres(Now, 1, 0)) - int64(purgeInterval))
+//@   ensures[disabled]        purgeInterval == 0 ==> pvUnchanged(hlv)
+//@   ensures[cv-mv-untouched] hlv.SourceID == old(hlv.SourceID) && hlv.Version == old(hlv.Version) && hlv.MergeVersions == old(hlv.MergeVersions) && hlv.PreviousVersions == old(hlv.PreviousVersions) && mvUnchanged(hlv)
+//@   ensures[only-removes]    forall k string :: {k in hlv.PreviousVersions} (k in hlv.PreviousVersions) ==> old(k in hlv.PreviousVersions) && hlv.PreviousVersions[k] == old(hlv.PreviousVersions[k])
+
+//@ props C06
